@@ -60,10 +60,11 @@ Qed.
     C-O vs C-[O-] queried by the charge-aware filtering engine, then object 2 edited into C-O *)
 Definition eNoWL : engine := set_wl eFull false.
 Definition histEd : list hstep := [HQ (QIso 0 0 2); HEdit 2 1; HQ (QIso 0 0 2)].
-Example ex_edit_stale : fst (run_hist has_mono (monos_g true) gsA gsA [eFull] histEd []) = [tbool false; tbool false]
-                        /\ hist_pure has_mono (monos_g true) gsA gsA [eFull] histEd = [tbool false; tbool true].
+Definition verdict_of (t : tok) : tok := match t with L (x :: _) => x | _ => t end.
+Example ex_edit_stale : map verdict_of (fst (run_hist has_mono (monos_g true) gsA gsA [eFull] histEd [])) = [tbool false; tbool false]
+                        /\ map verdict_of (hist_pure has_mono (monos_g true) gsA gsA [eFull] histEd) = [tbool false; tbool true].
 Proof. split; vm_compute; reflexivity. Qed.
-Example ex_edit_wl_off : fst (run_hist has_mono (monos_g true) gsA gsA [eNoWL] histEd []) = [tbool false; tbool true].
+Example ex_edit_wl_off : map verdict_of (fst (run_hist has_mono (monos_g true) gsA gsA [eNoWL] histEd [])) = [tbool false; tbool true].
 Proof.
   rewrite (edits_wl_off has_mono (monos_g true) gsA [eNoWL] histEd); [vm_compute; reflexivity|].
   repeat constructor.
@@ -72,7 +73,7 @@ Qed.
 Lemma edit_stale_witness : exists gs es hs,
   fst (run_hist has_mono (monos_g true) gs gs es hs []) <> hist_pure has_mono (monos_g true) gs gs es hs.
 Proof.
-  exists gsA, [eFull], histEd. destruct ex_edit_stale as (A & B). rewrite A, B. discriminate.
+  exists gsA, [eFull], histEd. destruct ex_edit_stale as (A & B). intros E. rewrite E, B in A. discriminate.
 Qed.
 
 (** an in-place edit of an object that has no cache entry (never queried by a filtering engine) is harmless for every engine:
